@@ -4,7 +4,8 @@
  *   uchan ch1       fiber_unbounded_channel_t (MPSC queue), ready signal "ch1_s"
  *   spchan ch1      fiber_unbounded_sp_channel_t (SPSC queue), ready signal "ch1_s"
  *   mchan ch1 1     fiber_multi_channel_t, capacity 1 << 1, its mutex is registered as "ch1_m"
- *   ops: send ch1 v1 | recv ch1      (messages are the registered names v1..v15)
+ *   ops: send ch1 v1 | recv ch1 | tryrecv ch1 (poll with try_receive, yield between attempts)
+ *        (messages are the registered names v1..v15)
  *
  * The queue primitives under the unbounded channels are verified by the thread-regime
  * modules; here they are atomic sections (one scheduling point at entry, one at exit).
@@ -162,7 +163,8 @@ static int ch_obj(const char* kind, const char* name, long arg, void** obj) {
 
 static int ch_op(const char* f, const char* op, const char* a1, const char* a2) {
   int is_send = !strcmp(op, "send");
-  if (!is_send && strcmp(op, "recv")) return 0;
+  int is_try = !strcmp(op, "tryrecv"); /* poll with the try_receive variant, fiber_yield() between attempts */
+  if (!is_send && !is_try && strcmp(op, "recv")) return 0;
   chd_t* d = ch_by_name(a1);
   if (!d) return 0; /* not one of our channels: leave the op to another extension */
   if (is_send) {
@@ -185,6 +187,32 @@ static int ch_op(const char* f, const char* op, const char* a1, const char* a2) 
     return 1;
   }
   void* v = NULL;
+  if (is_try) {
+    if (d->kind == K_M) return 0; /* the multi channel has no try variant */
+    vrt_api("\"f\":\"%s\",\"ph\":\"call\",\"op\":\"tryrecv\",\"o\":\"%s\"", f, a1);
+    for (;;) {
+      if (d->kind == K_B) {
+        if (fiber_bounded_channel_try_receive(d->ch, &v)) break;
+      } else if (d->kind == K_U) {
+        fiber_unbounded_channel_message_t* n = fiber_unbounded_channel_try_receive(d->ch);
+        if (n) {
+          v = n->data;
+          free(n);
+          break;
+        }
+      } else {
+        fiber_unbounded_sp_channel_message_t* n = fiber_unbounded_sp_channel_try_receive(d->ch);
+        if (n) {
+          v = n->data;
+          free(n);
+          break;
+        }
+      }
+      fiber_yield();
+    }
+    vrt_api("\"f\":\"%s\",\"ph\":\"ret\",\"op\":\"tryrecv\",\"o\":\"%s\",\"v\":\"%s\",\"r\":1", f, a1, vrt_name_of(v));
+    return 1;
+  }
   vrt_api("\"f\":\"%s\",\"ph\":\"call\",\"op\":\"recv\",\"o\":\"%s\"", f, a1);
   if (d->kind == K_B) {
     v = fiber_bounded_channel_receive(d->ch);
